@@ -111,13 +111,15 @@ CLAIMS = {
 
 # properties whose obligations include refinement theorems about code REGENERATED from the source by tools/go2lean
 TRANSL = {
- "C01": "Vector.AddVec/ScaleVec/VecDot/KBNSummer (the kernels one power iteration is made of)",
- "C02": "Vector.AddVec/ScaleVec/VecDot/KBNSummer (the kernels one power iteration is made of)",
- "C04": "basic.Canonicalize and CanonicalizeTrustVector",
+ "C01": "basic.Compute itself (validation, option resolution and defaults, transpose, the loop with its check schedule and stop rule, result assignment; MulVec and the convergence checker as hand-modelled externs) and the kernels one iteration is made of (AddVec/ScaleVec/VecDot/KBNSummer)",
+ "C02": "basic.Compute itself and the kernels one iteration is made of (AddVec/ScaleVec/VecDot/KBNSummer)",
+ "C04": "basic.Canonicalize, CanonicalizeTrustVector and CanonicalizeLocalTrust",
+ "C05": "basic.Compute itself (schedule resolution: checkFreq default 1, minIterations default checkFreq, maxIterations 0 = unlimited; the loop) and the nine option constructors of computeopts.go (each sets only its own field)",
  "C08": "basic.ExtractDistrust and DiscountTrustVector",
  "C09": "KBNSummer.Add/Sum, Vector.Sum/AddVec/SubVec/scaleInPlace/ScaleVec/Assign/Clone/Reset/SetDim and VecDot",
- "C10": "CSMatrix.Dim/NNZ/SetMinorDim",
+ "C10": "CSMatrix.Dim/NNZ/SetMinorDim/Transpose, NewCSRMatrix, RowVector/SetRowVector",
  "C11": "mergeSpan and Vector.Merge (incl. the overlay property stated on the translated code)",
+ "C18": "NewFlatTailChecker, FlatTailChecker.Update/Reached/Stats and basic.Compute itself (the stop rule)",
 }
 
 def entry(pid):
